@@ -14,11 +14,14 @@
                                     `list(_type_tree.items())` while `_type_tree` itself is mutated
                                     (`pop`, `_type_tree[new_type][cur_type] = sub_tree`, the KeyError
                                     fallback `_type_tree[new_type] = OrderedDict({cur_type: sub_tree})`,
-                                    the recursive `elif` branch, the final `if not registered`)
+                                    the recursive `elif` branch, the final `if not registered and
+                                    new_type not in _type_tree`)
     * `register`           → `register`   (the two loops; handler from kwargs, else inherited from an
                                     existing entry, else auto-discovered; `if not exact`; memo reset)
-    * `register_op`        → `registerOp` (no memo reset — as in the code)
-    * `_get_closest_type`  → `candidates` / `closest` (all matching siblings, recursive refinement,
+    * `register_op`        → `registerOp` (ends with the memo reset)
+    * `_get_matching_types`, `_get_closest_type`
+                           → `matching` / `dropSupers` / `closest` (deepest match of every branch;
+                                    drop candidates that are strict superclasses of another one;
                                     `min(candidates, key=mro.index or len(mro))`, first minimum wins)
     * `get_handler`        → `getHandler` (memo hit first; `if type_map:`; exact hit; tree; `ret is
                                     False and raise_exc`; memo write)
@@ -96,6 +99,11 @@ def nodes : Forest → List Ty
 
 end Forest
 
+/-- the end of `_register_fuzzy_type`:
+    `if not registered and new_type not in _type_tree: _type_tree[new_type] = OrderedDict()` -/
+def regFinish (new : Ty) (r : Forest × Bool) : Forest :=
+  if r.2 then r.1 else if (r.1.get? new).isSome then r.1 else r.1.set new .nil
+
 /-- the `for cur_type, sub_tree in list(_type_tree.items())` loop of `_register_fuzzy_type`.
     `snap` is what is left of the snapshot, `cur` the dict being mutated, the Bool is `registered`. -/
 def regLoop (H : Hier) (new : Ty) : Forest → Forest → Bool → Forest × Bool
@@ -113,15 +121,12 @@ def regLoop (H : Hier) (new : Ty) : Forest → Forest → Bool → Forest × Boo
       regLoop H new rest cur2 true
     else if H.sub new c then
       -- _type_tree[cur_type] = self._register_fuzzy_type(op, new_type, _type_tree=sub_tree)
-      let r := regLoop H new kids kids false
-      let kids' := if r.2 then r.1 else r.1.set new .nil
-      regLoop H new rest (cur.set c kids') true
+      regLoop H new rest (cur.set c (regFinish new (regLoop H new kids kids false))) true
     else regLoop H new rest cur reg
 
 /-- `_register_fuzzy_type(op, new_type, _type_tree=tree)` -/
 def regFuzzy (H : Hier) (new : Ty) (tree : Forest) : Forest :=
-  let r := regLoop H new tree tree false
-  if r.2 then r.1 else r.1.set new .nil
+  regFinish new (regLoop H new tree tree false)
 
 /-! ### `_get_closest_type` -/
 
@@ -137,18 +142,24 @@ def pickMin (H : Hier) (t : Ty) : List Ty → Option Ty
   | [] => none
   | x :: xs => some (pickMinAux H t x xs)
 
-/-- the list `candidates` built by the loop of `_get_closest_type` for an object of type `t` -/
-def candidates (H : Hier) (t : Ty) : Forest → List Ty
+/-- `_get_matching_types`: the deepest types of the tree, down every branch, that an object of
+    type `t` is an instance of (`ret.extend(self._get_matching_types(obj, sub_tree) or [cur_type])`) -/
+def matching (H : Hier) (t : Ty) : Forest → List Ty
   | .nil => []
   | .cons c kids rest =>
     if H.inst t c then
-      (match pickMin H t (candidates H t kids) with
-        | none => c
-        | some s => s) :: candidates H t rest
-    else candidates H t rest
+      (match matching H t kids with
+        | [] => [c]
+        | l => l) ++ matching H t rest
+    else matching H t rest
 
+/-- `[c for c in candidates if not any(o is not c and issubclass(o, c) for o in candidates)]` -/
+def dropSupers (H : Hier) (cands : List Ty) : List Ty :=
+  cands.filter (fun c => !(cands.any (fun o => o != c && H.sub o c)))
+
+/-- `_get_closest_type(obj, type_tree)` -/
 def closest (H : Hier) (t : Ty) (tree : Forest) : Option Ty :=
-  pickMin H t (candidates H t tree)
+  pickMin H t (dropSupers H (matching H t tree))
 
 /-! ### the registry -/
 
@@ -215,12 +226,13 @@ def fillAuto (H : Hier) (auto : String) (order : List Ty) (tmap : List (Ty × Ha
       | none => odSet t (H.auto auto t) m) tmap
 
 /-- `TargetRegistry.register_op(op_name, auto_func, exact)`; `order` is the iteration order of
-    the set `known_types`.  The memo is *not* reset (as in the code). -/
+    the set `known_types`; ends with the memo reset. -/
 def registerOp (H : Hier) (r : Reg) (op : Op) (auto : String) (exact : Bool) (order : List Ty) : Reg :=
   let tree := if exact then r.tree op else order.foldl (fun tr t => regFuzzy H t tr) (r.tree op)
   { r with typeMap := odSet op (fillAuto H auto order (r.map op)) r.typeMap,
            typeTree := odSet op tree r.typeTree,
-           autoMap := odSet op auto r.autoMap }
+           autoMap := odSet op auto r.autoMap,
+           cache := [] }
 
 inductive Answer where
   | ret (h : Handler)        -- the returned handler (`none` = `False`)
@@ -300,11 +312,18 @@ inductive Action where
   | lookup (reg : Nat) (op : Op) (ty : Ty) (raiseExc : Bool)
   deriving Repr, DecidableEq
 
-/-- `Glommer.__init__` builds `TargetRegistry(register_default_types=…)`: the same constructor -/
+/-- the registry each kind starts from.  `Glommer.__init__` builds
+    `TargetRegistry(register_default_types=…)` and then calls `registry.register_op(op, auto_func)`
+    for every op of the registry it is created from that the new one does not know; those calls
+    are ordinary `registerOp` actions at the head of the Glommer's history (`glommerOps`). -/
 def mkReg (H : Hier) (S : Setup) (orders : List (List Ty)) : RegKind → Reg
   | .module => moduleReg H S orders
   | .registry d => freshReg H S d
   | .glommer d => freshReg H S d
+
+/-- the `(op, auto_func)` pairs `Glommer.__init__` copies from `base` into `own` -/
+def glommerOps (base own : Reg) : List (Op × String) :=
+  base.autoMap.filter (fun p => (odGet p.1 own.autoMap).isNone)
 
 def updateAt {α} (f : α → α) : Nat → List α → List α
   | _, [] => []
